@@ -165,7 +165,7 @@ def chrom_parent(seq=GENOME40, name="chr1"):
                   location=SingleInterval(0, len(seq), Strand.PLUS))
 
 
-def chunk_parent(w, L, seq=None, name="chr1"):
+def chunk_parent(w, L, seq=None, name="chr1", strand=Strand.PLUS):
     """sequence chunk [w, w+L) of chromosome `name`; w may be symbolic, L and the chunk's sequence are concrete"""
     from inscripta.biocantor.parent import Parent, SequenceType
     from inscripta.biocantor.sequence import Alphabet, Sequence
@@ -177,5 +177,5 @@ def chunk_parent(w, L, seq=None, name="chr1"):
     return Parent(
         id=chunk_id,
         sequence=Sequence(seq, Alphabet.NT_STRICT, id=chunk_id, type=SequenceType.SEQUENCE_CHUNK,
-                          parent=Parent(location=SingleInterval(w, w + L, Strand.PLUS,
+                          parent=Parent(location=SingleInterval(w, w + L, strand,
                                                                 parent=Parent(id=name, sequence_type=SequenceType.CHROMOSOME)))))
